@@ -65,7 +65,7 @@ def merged_world(w, vi, addend_wire):
     return t, keep.index(first)
 
 
-def merge_equiv(eng, axis=0, other="cat", style="args", where="view", stale=True, strict=True):
+def merge_equiv(eng, axis=0, other="cat", style="args", where="view", stale=True, strict=True, neg_stale=False):
     """a subtotal without subtrahends == the merged category, for every measure defined for it"""
     ids = [1, 3] + ([99, -1] if stale else [])
     ins = {"anchor": 2, "function": "subtotal", "name": "S13"}
@@ -73,6 +73,9 @@ def merge_equiv(eng, axis=0, other="cat", style="args", where="view", stale=True
         ins["args"] = ids
     else:
         ins["kwargs"] = {"positive": ids}
+        if neg_stale:
+            # subtrahend ids that are stale or missing contribute nothing: still a plain sum subtotal
+            ins["kwargs"]["negative"] = [99, -1]
     sub_var = ("cat", "a", 4, {"missing_at": (2,), "insertions": [ins] if where == "view" else []})
     oth = ("cat", "b", 2, {"missing_at": (0,), "numeric_values": {1: 1, 2: 4}}) if other == "cat" else ("mr", "b", 2, {})
     specs = [sub_var, oth] if axis == 0 else [oth, sub_var]
@@ -320,6 +323,8 @@ def specs(tier):
 
     add("merge rows x cat (args, view, stale+missing ids)", "merge_equiv", dict(axis=0))
     add("merge cols x cat (kwargs, transforms)", "merge_equiv", dict(axis=1, style="kwargs", where="transforms"))
+    add("merge rows x cat, stale/missing subtrahend ids", "merge_equiv", dict(axis=0, style="kwargs", neg_stale=True))
+    add("merge cols x cat, stale/missing subtrahend ids", "merge_equiv", dict(axis=1, style="kwargs", neg_stale=True, where="transforms"))
     add("merge rows x mr", "merge_equiv", dict(axis=0, other="mr", style="kwargs"))
     add("merge cols, mr rows", "merge_equiv", dict(axis=1, other="mr", stale=False))
     add("merge rows x cat, zero counts allowed", "merge_equiv", dict(axis=0, style="kwargs", strict=False), max_paths=400)
